@@ -18,9 +18,16 @@
 //	        | (empty)                         zero bytes
 //	        | (unreadable)                    a file whose read fails (chmod 000; a dangling symlink when that has no
 //	                                          effect because the process is privileged)
-//	via     = g | d | (m xNAME) | e            the context's loader: global file loader, dependency loader, one module loader;
+//	via     = g | d | (m xNAME) | e | (f xNAME) the context's loader: global file loader, dependency loader, one module loader;
 //	                                          e = the dependency loader of the FLAT topology: the global loader is its first
-//	                                          member and every file loader is a child of the system loader
+//	                                          member and every file loader is a child of the system loader;
+//	                                          (f xNAME) = the loader of module NAME in the flat topology: a TOP-LEVEL file
+//	                                          loader (parent = system loader) that carries a module name
+//
+// A module may be called `environment`: newFileBasedLoader gives such a loader smart paths that are NOT module-name
+// relative (like the loader with the empty module name) while `find` still filters qualified names by that module name.
+// The three kinds of loader the constructor distinguishes are therefore all built: module name "" (g), `environment`
+// ((m x656e7669726f6e6d656e74), (f …), member of d / e) and an ordinary module name.
 //	lookups = ((load xNAME) | (has xNAME) | (discover) …)
 //
 // The loaders are built the way internal/runtime.go and loader/filebased_test.go do it: a fresh system-like parented loader
@@ -83,7 +90,7 @@ type lookup struct {
 type spec struct {
 	mods    []string
 	files   []file
-	via     string // "g", "d", or "m:<name>"
+	via     string // "g", "d", "e", "m:<name>" or "f:<name>"
 	lookups []lookup
 }
 
@@ -158,8 +165,8 @@ func specOf(args []sx.Sexp) (s spec, err error) {
 	switch {
 	case !args[2].IsList && (args[2].Atom == "g" || args[2].Atom == "d" || args[2].Atom == "e"):
 		s.via = args[2].Atom
-	case args[2].Tag() == "m" && len(args[2].List) == 2:
-		s.via = "m:" + args[2].List[1].MustStr()
+	case (args[2].Tag() == "m" || args[2].Tag() == "f") && len(args[2].List) == 2:
+		s.via = args[2].Tag() + ":" + args[2].List[1].MustStr()
 	default:
 		panic("bad via")
 	}
@@ -193,8 +200,8 @@ func (s spec) String() string {
 		fs[i] = sx.L(sx.L(segs...), f.body.sexp())
 	}
 	var via sx.Sexp
-	if strings.HasPrefix(s.via, "m:") {
-		via = sx.T("m", sx.Str(s.via[2:]))
+	if strings.HasPrefix(s.via, "m:") || strings.HasPrefix(s.via, "f:") {
+		via = sx.T(s.via[:1], sx.Str(s.via[2:]))
 	} else {
 		via = sx.A(s.via)
 	}
@@ -262,13 +269,13 @@ func typeNameOK(n string) bool {
 func (s spec) wellFormed() bool {
 	seen := map[string]bool{}
 	for _, m := range s.mods {
-		// `environment` is the pseudo module name of the environment loader itself (treated as global by the code)
-		if !modRx.MatchString(m) || seen[m] || m == "environment" {
+		// `environment` (the pseudo module name the code treats as global) is a module name like any other here
+		if !modRx.MatchString(m) || seen[m] {
 			return false
 		}
 		seen[m] = true
 	}
-	if strings.HasPrefix(s.via, "m:") && !seen[s.via[2:]] {
+	if (strings.HasPrefix(s.via, "m:") || strings.HasPrefix(s.via, "f:")) && !seen[s.via[2:]] {
 		return false
 	}
 	if s.via == "d" && len(s.mods) == 0 {
@@ -481,13 +488,16 @@ type world struct {
 	forked bool
 }
 
+// flat: the topology in which every file loader is a child of the system loader
+func (s spec) flat() bool { return s.via == "e" || strings.HasPrefix(s.via, "f:") }
+
 func build(root string, s spec) *world {
 	w := &world{root: root, mods: map[string]px.ModuleLoader{}}
 	w.sys = px.NewParentedLoader(px.StaticLoader())
 	w.global = px.NewFileBasedLoader(w.sys, filepath.Join(root, "env"), "", px.PuppetDataTypePath)
 	mls := make([]px.ModuleLoader, 0, len(s.mods)+1)
 	var parent px.Loader = w.global
-	if s.via == "e" {
+	if s.flat() {
 		// flat topology: the global loader is the first member of the dependency loader, nobody's parent
 		parent = w.sys
 		mls = append(mls, w.global)
